@@ -6,6 +6,7 @@ import (
 	"strings"
 	"testing"
 
+	"github.com/fxamacker/cbor/v2"
 	cose "github.com/veraison/go-cose"
 	"pgregory.net/rapid"
 
@@ -183,7 +184,7 @@ func checkWorkspaceFor(c wsCase, only string) error {
 				}
 				if want := s.csigValid(cs); (verr == nil) != want {
 					if verr != nil {
-						if e := fail("C10:countersignature-rejected", "after step %d (%+v): object %d (%v): a countersignature (abbreviated=%v) made over exactly the protected bytes, payload and signature the object has now is rejected: %v", step, op, i, s.spec.Kind, cs.abbrev, verr); e != nil {
+						if e := fail("C01+C10:countersignature-rejected", "after step %d (%+v): object %d (%v): a countersignature (abbreviated=%v) made over exactly the protected bytes, payload and signature the object has now is rejected: %v", step, op, i, s.spec.Kind, cs.abbrev, verr); e != nil {
 							return e
 						}
 						continue
@@ -570,6 +571,85 @@ func checkWorkspaceFor(c wsCase, only string) error {
 			s.from, s.pure = nil, false
 			s.csigs = append(s.csigs, cs)
 			stats.Class("ws/countersign")
+		case "detach-countersign":
+			// the full countersignature of an object is kept as a detached COSE_Countersignature: encoded on
+			// its own, parsed back from a buffer the caller reuses at once, and the parsed object takes the
+			// place of the original one. Nothing it covers has changed.
+			s := pick(op.A)
+			if s == nil || !s.signed {
+				continue
+			}
+			h := s.m.headers()
+			obj, ok := h.Unprotected[int64(11)].(*cose.Countersignature)
+			if !ok || obj == nil {
+				continue
+			}
+			enc, err := obj.MarshalCBOR()
+			if err != nil {
+				if e := fail("C10:countersignature-unencodable", "step %d: a countersignature that verifies cannot be encoded on its own: %v", step, err); e != nil {
+					return e
+				}
+				continue
+			}
+			buf := append(make([]byte, 0, len(enc)+16), enc...)
+			back := new(cose.Countersignature)
+			if op.B%2 == 0 {
+				err = back.UnmarshalCBOR(buf)
+			} else {
+				err = cbor.Unmarshal(buf, back)
+			}
+			for i := range buf[:cap(buf)] {
+				buf[:cap(buf)][i] ^= 0x5a
+			}
+			if err != nil {
+				if e := fail("C01+C10:countersignature-own-output-rejected", "step %d: a COSE_Countersignature encoded on its own is refused by its decoder: %v\n%x", step, err, enc); e != nil {
+					return e
+				}
+				continue
+			}
+			nu := cose.UnprotectedHeader{}
+			for k, v := range h.Unprotected {
+				nu[k] = v
+			}
+			nu[int64(11)] = back
+			h.Unprotected = nu
+			if s.dec {
+				h.RawUnprotected = nil
+			}
+			s.from, s.pure = nil, false
+			stats.Class("ws/countersignature-detached-and-parsed-back")
+		case "detach-signature":
+			// one COSE_Signature of a COSE_Sign goes through its own encoder and decoder (a caller storing
+			// signatures separately) and the parsed object takes the place of the original
+			s := pick(op.A)
+			if s == nil || !s.signed || s.m.sm == nil || len(s.m.sm.Signatures) == 0 {
+				continue
+			}
+			i := op.B % len(s.m.sm.Signatures)
+			enc, err := s.m.sm.Signatures[i].MarshalCBOR()
+			if err != nil {
+				if e := fail("C01:signature-unencodable", "step %d: a COSE_Signature that is part of an encodable COSE_Sign cannot be encoded on its own: %v", step, err); e != nil {
+					return e
+				}
+				continue
+			}
+			buf := append(make([]byte, 0, len(enc)+16), enc...)
+			back := new(cose.Signature)
+			err = back.UnmarshalCBOR(buf)
+			for j := range buf[:cap(buf)] {
+				buf[:cap(buf)][j] ^= 0x5a
+			}
+			if err != nil {
+				if e := fail("C01:signature-own-output-rejected", "step %d: a COSE_Signature encoded on its own is refused by its decoder: %v\n%x", step, err, enc); e != nil {
+					return e
+				}
+				continue
+			}
+			sigs := append([]*cose.Signature{}, s.m.sm.Signatures...)
+			sigs[i] = back
+			s.m.sm.Signatures = sigs
+			s.from, s.pure = nil, false
+			stats.Class("ws/signature-detached-and-parsed-back")
 		case "tamper":
 			s := pick(op.A)
 			if s == nil || !s.signed {
@@ -696,7 +776,7 @@ func genWorkspace(t *rapid.T) wsCase {
 		c.Ops = append(c.Ops, wsOp{Op: "encode"}, wsOp{Op: "new", A: 1}, wsOp{Op: "sign", A: 1}, wsOp{Op: "encode", A: 1}, wsOp{Op: "decode", A: 0}, wsOp{Op: "decode", A: 1})
 	}
 	names := []string{"new", "sign", "sign", "encode", "encode", "decode", "decode", "decode-into", "decode-into", "edit-protected", "edit-payload", "edit-unprotected",
-		"tamper", "tamper", "re-sign", "scribble", "churn", "encode", "decode", "copy-redecode", "copy-redecode", "copy-template", "copy-template", "countersign", "countersign", "countersign"}
+		"tamper", "tamper", "re-sign", "scribble", "churn", "encode", "decode", "copy-redecode", "copy-redecode", "copy-template", "copy-template", "countersign", "countersign", "countersign", "detach-countersign", "detach-countersign", "detach-signature"}
 	k := rapid.IntRange(4, 24).Draw(t, "nops")
 	for i := 0; i < k; i++ {
 		c.Ops = append(c.Ops, wsOp{Op: rapid.SampledFrom(names).Draw(t, "op"), A: rapid.IntRange(0, 7).Draw(t, "a"), B: rapid.IntRange(0, 7).Draw(t, "b")})
